@@ -40,6 +40,8 @@ func init() {
 			{ID: "C11-R14", Title: "dotted names are resolved one module per element", Floor: 1, Run: pathDescentAdvances},
 			{ID: "C11-R15", Title: "member builtins point back at the module that holds them, unconditionally", Floor: 1, Run: membersPointBackUnconditionally},
 			{ID: "C11-R16", Title: "the reset before RunCode is decided by what is loaded", Floor: 1, Run: resetLooksAtWhatIsLoaded},
+			{ID: "C11-R17", Title: "configuration errors are not discarded", Floor: 1, Run: configurationErrorsAreNotDiscarded},
+			{ID: "C11-R18", Title: "loaded code entries are fresh (shared with C07)", Floor: 2, Run: loadedCodeEntriesAreFresh},
 		},
 	})
 }
